@@ -41,12 +41,54 @@ pub trait Loader {
 
     fn architecture(&self) -> (r: &dyn Architecture);
 
-    //TMP fn symbols(&self) -> (r: Vec<Symbol>)
-    //TMP    requires self.symbols_req();
+    fn symbols(&self) -> (r: Vec<Symbol>)
+        requires self.symbols_req();
 }
 
 //@ source lib/loader/symbol.rs
 //@ item struct Symbol
+
+// derive(PartialEq, Eq, PartialOrd, Ord) on `struct Symbol { address: u64, name: String }` re-supplied:
+// compiler-generated structural equality and lexicographic comparison in field order (address, then name;
+// String compares by its characters, see `str_lt` in units/C19/std_local.rs).  ASSUMED, listed in the evidence.
+impl vstd::std_specs::cmp::PartialEqSpecImpl for Symbol {
+    open spec fn obeys_eq_spec() -> bool { true }
+    open spec fn eq_spec(&self, other: &Symbol) -> bool { sview(*self) == sview(*other) }
+}
+impl PartialEq for Symbol {
+    #[verifier::external_body]
+    fn eq(&self, other: &Symbol) -> (r: bool) ensures r == (sview(*self) == sview(*other)) { unimplemented!() }
+}
+impl Eq for Symbol {}
+impl vstd::std_specs::cmp::PartialOrdSpecImpl for Symbol {
+    open spec fn obeys_partial_cmp_spec() -> bool { true }
+    open spec fn partial_cmp_spec(&self, other: &Symbol) -> Option<core::cmp::Ordering> { Some(sym_cmp(*self, *other)) }
+}
+impl PartialOrd for Symbol {
+    #[verifier::external_body]
+    fn partial_cmp(&self, other: &Symbol) -> (r: Option<core::cmp::Ordering>) ensures r == Some(sym_cmp(*self, *other)) { unimplemented!() }
+}
+impl vstd::std_specs::cmp::OrdSpecImpl for Symbol {
+    open spec fn obeys_cmp_spec() -> bool { true }
+    open spec fn cmp_spec(&self, other: &Symbol) -> core::cmp::Ordering { sym_cmp(*self, *other) }
+}
+impl Ord for Symbol {
+    #[verifier::external_body]
+    fn cmp(&self, other: &Symbol) -> (r: core::cmp::Ordering) ensures r == sym_cmp(*self, *other) { unimplemented!() }
+}
+
+impl Symbol {
+//@ fn impl Symbol :: fn new
+//@ rewrite 1 `name.into()` => `into_string(name)` ## R-into: the same conversion through the stand-in of prelude/strmap.rs that carries the assumed contract of Into<String> (keeps the characters)
+//@ spec
+    ensures /*@fields*/ r.address == address && r.name@ == into_string_chars(name),
+//@ end
+
+//@ fn impl Symbol :: fn address
+//@ spec
+    ensures /*@address*/ r == self.address,
+//@ end
+} // impl Symbol
 
 //@ source lib/loader/elf/elf.rs
 //@ item struct Elf
